@@ -217,6 +217,10 @@ func (c *context) cancel() {
 		delete(s.ctxByID, c.reqID)
 		c.reqID = 0
 	}
+	// Whoever is waiting in RecvMsg waits for the request just abandoned:
+	// it will see that when it wakes up.  A Recv for the request that
+	// replaces it must not be turned away on its account meanwhile.
+	c.receiveWait = false
 	if c.repMsg != nil {
 		c.repMsg.Free()
 		c.repMsg = nil
@@ -354,8 +358,8 @@ func (c *context) RecvMsg() (*protocol.Message, error) {
 		m = c.repMsg
 		c.reqID = 0
 		c.repMsg = nil
+		c.receiveWait = false
 	}
-	c.receiveWait = false
 	c.cond.Broadcast()
 
 	if m == nil {
